@@ -9,6 +9,7 @@ import (
 
 func runC20(c *Ctx, tier string) {
 	p := c.P
+	runShaperStepKindsCovered(c, "C20-K1")
 	c.Rule("C20-M1", "every new input type is mixed into the fused schema before the value is buffered: in Fuser.Write no path reaches stash/spill with a type missing from f.types unless Mixin(rec.Type()) ran")
 	c.Rule("C20-W2", "buffered values are copies (= C04-W2 for Fuser.Write)")
 	c.Rule("C20-O1", "spilling keeps input order: stash writes the already buffered values (in slice order) to the spill file before the current one, and nothing is buffered in memory once a spill file exists")
